@@ -1272,6 +1272,8 @@ class FnRewriter:
             nm, po = sig[n + 1], sig[n + 2]
             if not (toks[nm].kind == 'ident' and toks[nm].text in calls and toks[po].text == '('):
                 continue
+            if n + 3 < len(sig) and toks[sig[n + 3]].text == '&':
+                continue    # `a.eq(&b)`: PartialEq-style call by reference, not an iterator method
             # walk the receiver back
             q = prev(k)
             start = None
